@@ -42,7 +42,10 @@ GROUPS = ["wallet", "blockrelay", "messenger", "controller", "cache", "validator
           # the sync committee duty pipeline through the controller's scheduling path (aliased structures)
           "syncduty",
           # attestation jobs of one epoch's slots on the entries of the epoch's subscription info || head events
-          "attinfo"]
+          "attinfo",
+          # the process-wide map of relay clients behind util.FetchBuilderClient, with relays NEW to the process: real
+          # block relay (registration round) || real builder-bid strategies best / deadline || direct fetches
+          "builderclients"]
 # (package of the driver, test binary name); the controller driver lives inside the controller package
 # because it reuses the C03 controller harness (package-internal)
 DRIVERS = {
@@ -80,7 +83,11 @@ MUST_VIOLATE = {"MC_Concurrency_inplace_registrar.cfg":
                 # group attinfo
                 "MC_Concurrency_alias_job_subscription_entries.cfg":
                 ("an attestation job removes its slot from the epoch's published subscription info when the aggregator "
-                 "has no account, while the jobs of the epoch's other slots read the entries without the lock", "Disciplined")}
+                 "has no account, while the jobs of the epoch's other slots read the entries without the lock", "Disciplined"),
+                # group builderclients
+                "MC_Concurrency_fastpath_builders.cfg":
+                ("util.FetchBuilderClient hands out a known relay client before it takes the lock (double-checked locking) "
+                 "while another goroutine inserts the client of a relay that is new to the process", "Disciplined")}
 # ... and the control of that control: the same rendering is right as long as an instance sees ONE refresh (what
 # a check that starts every schedule on a fresh instance looks at) - must HOLD
 MUST_HOLD = {"MC_Concurrency_reuse_dirk_fresh.cfg":
@@ -94,7 +101,10 @@ MUST_HOLD = {"MC_Concurrency_reuse_dirk_fresh.cfg":
              "which every member has one",
              "MC_Concurrency_alias_job_subscription_entries_narrow.cfg":
              "the attestation job that alters the published subscription info, in the NARROW environment in which the "
-             "attester returns no attestations (the job ends before it looks at the info)"}
+             "attester returns no attestations (the job ends before it looks at the info)",
+             "MC_Concurrency_fastpath_builders_known.cfg":
+             "the lock-free fast path of util.FetchBuilderClient in the NARROW environment in which every relay has its "
+             "client before the overlap (what a driver with pre-registered fake relay clients looks at)"}
 
 # Guard table keys -> how an access site is recognised in the source (file suffix, regex on the source line).
 # The names are the variables of Concurrency!Guard; anything else racing inside Vouch is reported under the
@@ -423,9 +433,9 @@ def schedules(tier):
 
 def reps_for(g, tier):
     # syncduty: repetition r makes interface r % 4 slow (none, head root, head block, signers): a multiple of 4
-    quick = {"wallet": 40, "controller": 6, "bidstrategy": 6, "dirk": 10, "syncduty": 4}
+    quick = {"wallet": 40, "controller": 6, "bidstrategy": 6, "dirk": 10, "syncduty": 4, "builderclients": 6}
     thorough = {"wallet": 400, "blockrelay": 40, "controller": 40, "registrar": 60, "restcfg": 40, "bidstrategy": 40,
-                "dirk": 100, "syncduty": 8}
+                "dirk": 100, "syncduty": 8, "builderclients": 30}
     if tier == "quick":
         return quick.get(g, 12)
     return thorough.get(g, 200)
@@ -588,7 +598,7 @@ def run(tier):
     # must the renderings of a CLASS of change (in-place registration round, re-used key list).  Small models,
     # started now, side by side, next to the exhaustive run
     small = concurrent.futures.ThreadPoolExecutor(max_workers=7)
-    side = concurrent.futures.ThreadPoolExecutor(max_workers=3)       # the second exhaustive run, the schedule generation
+    side = concurrent.futures.ThreadPoolExecutor(max_workers=4)       # the second exhaustive run, the schedule generation
     futs, must = {}, {}
     if full:
         futs = {g: small.submit(vf.tlc, PID, "mc-pinned-" + g, "Concurrency", "MC_Concurrency_pinned_%s.cfg" % g, workers=1, timeout=600)
@@ -605,10 +615,15 @@ def run(tier):
     if "syncduty" in gs and tier == "thorough":
         # three calls, every choice of accounts / history, the requests answered (but head root and head block)
         sync_big = side.submit(vf.tlc_exhaustive, PID, "Concurrency", "MC_Concurrency_syncduty_big.cfg", workers=4, timeout=1500)
+    clients_mc = None
+    if "builderclients" in gs:
+        clients_mc = side.submit(vf.tlc_exhaustive, PID, "Concurrency", "MC_Concurrency_builderclients.cfg", workers=2, heap="2g")
     sched_f = side.submit(schedules, tier)
     v.add_mc(vf.tlc_exhaustive(PID, "Concurrency", "MC_Concurrency.cfg"))
     if sync_mc is not None:
         v.add_mc(sync_mc.result())
+    if clients_mc is not None:
+        v.add_mc(clients_mc.result())
     if full:
         if tier == "thorough":
             v.add_mc(vf.tlc_exhaustive(PID, "Concurrency", "MC_Concurrency_big.cfg", timeout=1500))
